@@ -366,6 +366,24 @@ func (g *Gen) loopEnv(li *loopInfo, st *State, phiVals map[string]Val, blk *ssa.
 		}
 		return Val{}, false
 	}
+	// a parameter that the function reassigns before the loop: its name denotes the current value
+	// (the entry value stays available as name0)
+	for name := range g.params {
+		if strings.HasSuffix(name, "0") {
+			if _, isParam := g.params[strings.TrimSuffix(name, "0")]; isParam {
+				continue
+			}
+		}
+		if _, isPhi := phiVals[name]; isPhi {
+			continue
+		}
+		if len(g.debugVals[name]) == 0 {
+			continue
+		}
+		if v, ok := g.lookupVar(name, blk, -1, st); ok {
+			env.vars[name] = v
+		}
+	}
 	// header phis shadow parameters of the same name
 	for n, v := range phiVals {
 		env.vars[n] = v
@@ -672,6 +690,17 @@ func (g *Gen) loopModified(li *loopInfo) (map[string][]ssa.Value, bool) {
 				}
 				return
 			}
+			if fn := g.mapTermBase(base, inLoop); fn != nil {
+				// a reference the body loads from a field of an object defined outside the loop: named by a term
+				if _, ok := mods[h]; !ok {
+					mods[h] = []ssa.Value{}
+				}
+				if g.loopTermBases == nil {
+					g.loopTermBases = map[string][]func(*State) (string, bool){}
+				}
+				g.loopTermBases[h] = append(g.loopTermBases[h], fn)
+				return
+			}
 			unknown[h] = true
 			if _, ok := mods[h]; !ok {
 				mods[h] = nil
@@ -915,6 +944,9 @@ func (g *Gen) mapTermBase(m ssa.Value, inLoop func(ssa.Value) bool) func(*State)
 	if _, isStruct := f.Type().Underlying().(*types.Struct); isStruct {
 		return nil
 	}
+	if g.sortOf(f.Type()) != "Int" {
+		return nil // only references (pointers, maps, channels)
+	}
 	heap := g.fieldHeap(st, fa.Field)
 	return func(s *State) (string, bool) {
 		if _, isInstr := fa.X.(ssa.Instruction); isInstr {
@@ -965,7 +997,15 @@ func (g *Gen) callTermBases(c *ssa.CallCommon, inLoop func(ssa.Value) bool) map[
 		for _, le := range m.Es {
 			call, isCall := le.(*ECall)
 			hs := g.locHeaps(key, le)
-			if !isCall || (call.Fun != "entries" && call.Fun != "contents") || len(call.Args) != 1 {
+			ghostFld := false
+			if fld, isFld := le.(*EField); isFld {
+				if gd, ok := g.E.contracts.Ghosts[fld.Name]; ok && gd.Kind == "field" {
+					if _, simple := fld.X.(*EIdent); !simple {
+						ghostFld = true // ghost field of an object reached through fields (x.f.ghost): named by a term
+					}
+				}
+			}
+			if !ghostFld && (!isCall || (call.Fun != "entries" && call.Fun != "contents") || len(call.Args) != 1) {
 				if isCall && call.Fun == "allentries" {
 					for _, h := range hs {
 						bad[h] = true
